@@ -954,6 +954,12 @@ func checkC05(r *Run) {
 	c05DecRef(r, m)
 	c05TableAPI(r, m)
 	c05Teardown(r, m)
+
+	// r3 (continued): a rename hands the child's parent reference over - old parent released,
+	// new parent acquired, on every path of the bookkeeping callback (the rule of C08.r3)
+	if r.borrowed == nil {
+		r.borrow(checkC08, map[string]string{"r3": "r3"})
+	}
 }
 
 func c05DecRef(r *Run, m *ServerModel) {
